@@ -129,6 +129,12 @@ def apply(F):
                 &&& o is None ==> r == Err::<(), HpkeError>(HpkeError::OpenError) && final(self).view() == v
                 &&& o is Some ==> r is Ok && final(ciphertext)@ == o.unwrap() && final(self).view() == ctx_advance(v)
             }}),
+            /*@C05 C06 C01 lemma-link*/ ({{
+                let s = ctx_open_spec::<{IMPL}>(old(self).view(), aad@, old(ciphertext)@, tag.v_tag());
+                &&& final(self).view() == s.0
+                &&& (s.1 matches Err(e) ==> r == Err::<(), HpkeError>(e))
+                &&& (s.1 matches Ok(p) ==> r is Ok && final(ciphertext)@ == p)
+            }}),
 ''')
     F.contract(R, r'pub fn open\b', ret='r', clauses=f'''
         requires aead_ok::<A>(),
@@ -144,6 +150,12 @@ def apply(F):
                                                  ciphertext@.subrange(0, n), ciphertext@.subrange(n, ciphertext@.len() as int));
                 &&& o is None ==> r == Err::<crate::Vec<u8>, HpkeError>(HpkeError::OpenError) && final(self).view() == v
                 &&& o is Some ==> r is Ok && r.unwrap()@ == o.unwrap() && final(self).view() == ctx_advance(v)
+            }}),
+            /*@C05 C06 C14 C01 lemma-link*/ ({{
+                let s = ctx_open_alloc_spec::<{IMPL}>(old(self).view(), aad@, ciphertext@, nt_of::<{IMPL}>());
+                &&& final(self).view() == s.0
+                &&& (s.1 matches Err(e) ==> r == Err::<crate::Vec<u8>, HpkeError>(e))
+                &&& (s.1 matches Ok(p) ==> r is Ok && r.unwrap()@ == p)
             }}),
 ''')
     F.contract(R, r'pub fn export\b', ret='r', clauses=EXPORT.format(o='out_buf', c='info'))
@@ -168,6 +180,12 @@ def apply(F):
                 &&& s is None ==> r == Err::<AeadTag<A>, HpkeError>(HpkeError::SealError) && final(self).view() == v
                 &&& s is Some ==> r is Ok && final(plaintext)@ == s.unwrap().0 && r.unwrap().v_tag() == s.unwrap().1
                                   && final(self).view() == ctx_advance(v)
+            }}),
+            /*@C04 C01 lemma-link*/ ({{
+                let s = ctx_seal_spec::<{IMPL}>(old(self).view(), aad@, old(plaintext)@);
+                &&& final(self).view() == s.0
+                &&& (s.1 matches Err(e) ==> r == Err::<AeadTag<A>, HpkeError>(e))
+                &&& (s.1 matches Ok(c) ==> r is Ok && final(plaintext)@ == c.0 && r.unwrap().v_tag() == c.1)
             }}),
 ''')
     # allocating seal: `buf[..n]` on a Vec is outside Verus' model -> contract assumed, bounded Kani stand-in
